@@ -149,7 +149,7 @@ pub fn run(args: &Args) -> ! {
         for err in ["none", "small", "big", "huge"] {
             for exit in ["0", "1", "2", "255", "kill"] {
                 for when in ["before", "during", "after"] {
-                    for rgmode in ["full", "-m1", "-q", "-l", "count", "implicit"] {
+                    for rgmode in ["full", "-m1", "-q", "-l", "count", "implicit", "heading"] {
                         for glob in ["*.txt", "none", "!*.dat", "*.dat", "!*.txt"] {
                             if tier == Tier::Quick {
                                 // one fault dimension at a time around a base point, plus all of {exit x when x rgmode}
@@ -206,6 +206,7 @@ pub fn run(args: &Args) -> ! {
             }
             let mode_args: Vec<&str> = match c.rgmode {
                 "full" | "implicit" => vec!["-n"],
+                "heading" => vec!["-n", "--heading"],
                 "-m1" => vec!["-n", "-m1"],
                 "-q" => vec!["-q"],
                 "-l" => vec!["-l"],
@@ -241,8 +242,18 @@ pub fn run(args: &Args) -> ! {
             let mut all_ok = true;
             let mut any_early = false;
             for (fi, f) in files.iter().enumerate() {
-                let got_f: Vec<String> = String::from_utf8_lossy(&got.stdout).lines().filter(|l| l.starts_with(f)).map(|s| s.to_string()).collect();
-                let want_f: Vec<String> = String::from_utf8_lossy(&want.stdout).lines().filter(|l| l.starts_with(f)).map(|s| s.to_string()).collect();
+                // a file's records: the lines carrying its name, or under
+                // --heading the block that starts with the name on its own line
+                let records = |out: &[u8]| -> Vec<String> {
+                    let text = String::from_utf8_lossy(out).to_string();
+                    if c.rgmode == "heading" {
+                        text.lines().skip_while(|l| l != f).take_while(|l| !l.is_empty()).map(|s| s.to_string()).collect()
+                    } else {
+                        text.lines().filter(|l| l.starts_with(f)).map(|s| s.to_string()).collect()
+                    }
+                };
+                let got_f: Vec<String> = records(&got.stdout);
+                let want_f: Vec<String> = records(&want.stdout);
                 let names_f = stderr.lines().any(|l| l.contains(f));
                 match &caps[fi] {
                     None => {
@@ -471,7 +482,7 @@ pub fn run(args: &Args) -> ! {
     ev.set(
         "rule",
         format!(
-            "--pre with a helper script whose behaviour is the alphabet: stdout in {{the file, upper-cased, empty, the file + 4000 lines (220 KiB), a line + a NUL + 4000 lines}}, stderr in {{none, 10 bytes, 1 MiB, 3 MiB — written BEFORE stdout}}, exit in {{0,1,2,255, kill -9}} at {{before, during, after}} its output; rg consuming in {{full, -m1, -q, -l, -c, implicit directory search (binary detection quits at the NUL)}}; --pre-glob in {{*.txt, absent, !*.dat (negated only), *.dat, !*.txt}}{}: {} cases; plus a missing and a non-executable command. -z: gzip, bzip2 and xz archives of a 3-line file truncated to EVERY byte length 0..len, an unrecognised extension and a plain file. Oracle: the results equal `rg` run on the bytes the command / decompressor wrote when run once outside rg (same file name); files not selected by --pre-glob are searched directly; command failure after its output was consumed, or failure to start => a diagnostic naming the file and status 2; stopping early with an empty stderr is not an error; every run ends within 10 s (1 MiB of stderr must not block).",
+            "--pre with a helper script whose behaviour is the alphabet: stdout in {{the file, upper-cased, empty, the file + 4000 lines (220 KiB), a line + a NUL + 4000 lines}}, stderr in {{none, 10 bytes, 1 MiB, 3 MiB — written BEFORE stdout}}, exit in {{0,1,2,255, kill -9}} at {{before, during, after}} its output; rg consuming in {{full, -m1, -q, -l, -c, --heading, implicit directory search (binary detection quits at the NUL)}}; --pre-glob in {{*.txt, absent, !*.dat (negated only), *.dat, !*.txt}}{}: {} cases; plus a missing and a non-executable command. -z: gzip, bzip2 and xz archives of a 3-line file truncated to EVERY byte length 0..len, an unrecognised extension and a plain file. Oracle: the results equal `rg` run on the bytes the command / decompressor wrote when run once outside rg (same file name); files not selected by --pre-glob are searched directly; command failure after its output was consumed, or failure to start => a diagnostic naming the file and status 2; stopping early with an empty stderr is not an error; every run ends within 10 s (1 MiB of stderr must not block).",
             if tier == Tier::Quick { " (quick: one dimension varied at a time around the base point)" } else { " (full product)" },
             cases.len()
         ),
